@@ -114,7 +114,7 @@ void h_multipart_get_boundary(void) {
 /* the download state dl_write_range expects (contracts/dl_range.h), as far as multipart.c can see it: one
  * ghost-named range entry whose src is "the chunk being filled, if any" */
 static void mk_dlstate(IN_mp *in, zckDL *dl) {
-    g_dr1 = g_dr2 = g_dr3 = NULL;
+    DR_NONE_INIT(); g_dr1 = g_dr2 = g_dr3 = DR_NONE;
     if(dl == NULL || dl->zck == NULL) return;
     zckCtx *zck = dl->zck;
     zck->fd = in->fd;
@@ -138,7 +138,8 @@ static void mk_dlstate(IN_mp *in, zckDL *dl) {
 #endif
 void h_multipart_extract(void) {
     IN_mp in = nondet_IN_mp();
-    zckDL *dl = in.dl_null ? NULL : mk_mpdl(&in);
+    V_ASSUME(!in.zck_null);
+    zckDL *dl = mk_mpdl(&in);
     mk_dlstate(&in, dl);
     V_ASSUME(in.size <= MPX_FRAG);
     char *b = malloc(in.size);
